@@ -215,16 +215,24 @@ class JumpToStageHandler(StabilizeHandler[JumpToStage]):
                 max_jumps = DEFAULT_MAX_JUMPS
             new_jump_count = jump_count + 1
 
+            # Context keys this jump sets on the target. ONLY these keys are
+            # written onto the freshly re-read target row in _apply_jump: the
+            # target read above is a snapshot from before the jump transaction,
+            # and copying its whole context back would silently overwrite what
+            # another writer committed in between (e.g. a persistent signal
+            # buffered into `_buffered_signals` by SignalStageHandler).
+            target_context_updates: dict[str, Any] = {}
+
             # Merge jump context into target stage
             if message.jump_context:
-                target_stage.context.update(message.jump_context)
+                target_context_updates.update(message.jump_context)
 
             # Make jump outputs available via special context key
             if message.jump_outputs:
-                target_stage.context["_jump_outputs"] = message.jump_outputs
+                target_context_updates["_jump_outputs"] = message.jump_outputs
 
             # Set bypass flag so StartStageHandler skips prerequisite checks
-            target_stage.context["_jump_bypass"] = True
+            target_context_updates["_jump_bypass"] = True
 
             # Record jump history
             jump_history = source_stage.context.get("_jump_history", [])
@@ -238,8 +246,8 @@ class JumpToStageHandler(StabilizeHandler[JumpToStage]):
             )
 
             # Store jump metadata in target stage
-            target_stage.context["_jump_count"] = new_jump_count
-            target_stage.context["_jump_history"] = jump_history
+            target_context_updates["_jump_count"] = new_jump_count
+            target_context_updates["_jump_history"] = jump_history
 
             logger.info(
                 "Jumping from stage %s to %s (jump #%d/%d)",
@@ -274,9 +282,7 @@ class JumpToStageHandler(StabilizeHandler[JumpToStage]):
                 if is_backward_jump:
                     mutations.extend(self._synthetic_reset_mutations(message.execution_id, source_stage.id))
 
-            # Target stage mutation
-            target_context_updates = dict(target_stage.context)
-
+            # Target stage mutation (fresh row: reset, then only the jump's own keys)
             def mutate_target(s: StageExecution, updates: dict[str, Any] = target_context_updates) -> None:
                 reset_stage_for_retry(s)
                 s.context.update(updates)
